@@ -15,6 +15,8 @@ def run(chk):
     tree_rules.setup_resets(chk, "C16")
     backtest_rules.run_loop(chk, "C16")
     closeout_quantity(chk)
+    from .c10 import price_guard_in_allocate
+    price_guard_in_allocate(chk)  # the liquidation trades at whatever price made the value negative: only a missing or zero price is refused
     # after the liquidation nothing may be left parked on a security: the carry parked by a coupon-paying security is always coupon - cost of the CURRENT position
     core_rules.coupon_accrual(chk, "C16")
 
